@@ -17,6 +17,27 @@ Proof. unfold gen_alpha_pop, alpha, Dval. solve_exp. Qed.
 Lemma tie_alpha_ind pa na pr nr t : gen_alpha_ind pa na pr nr t = alpha pa na pr nr t.
 Proof. unfold gen_alpha_ind, alpha, Dval. solve_exp. Qed.
 
+(** mixture model: the expression traced with K = 2 and K = 3 clusters is the model's cluster-weighted rule — the
+    regularity after the proposal is weighted with the responsibilities of the state AFTER the proposal.
+    (inner exponentials are abstracted to positive reals, the exponents compared by [field]) *)
+Ltac abstract_exps :=
+  repeat match goal with
+         | |- context [exp ?x] => generalize (exp_pos x); generalize (exp x); intros ? ?
+         end.
+
+Ltac solve_mix :=
+  cbv beta delta [alpha_mix alpha Dval cluster_weighted resp_weights resp_logit dot sum_R map fold_right] iota zeta;
+  apply (f_equal exp); abstract_exps; field; repeat split; lra.
+
+Lemma tie_alpha_ind_mix2 pa na s00 s01 r00 r01 s10 s11 r10 r11 t :
+  gen_alpha_ind_mix2 pa na s00 s01 r00 r01 s10 s11 r10 r11 t = alpha_mix pa na [s00; s01] [r00; r01] [s10; s11] [r10; r11] t.
+Proof. unfold gen_alpha_ind_mix2. solve_mix. Qed.
+
+Lemma tie_alpha_ind_mix3 pa na s00 s01 s02 r00 r01 r02 s10 s11 s12 r10 r11 r12 t :
+  gen_alpha_ind_mix3 pa na s00 s01 s02 r00 r01 r02 s10 s11 s12 r10 r11 r12 t
+  = alpha_mix pa na [s00; s01; s02] [r00; r01; r02] [s10; s11; s12] [r10; r11; r12] t.
+Proof. unfold gen_alpha_ind_mix3. solve_mix. Qed.
+
 Lemma tie_accept_pop u a : gen_accept_pop u a <-> u < a.
 Proof. unfold gen_accept_pop. split; intros H; lra. Qed.
 
@@ -32,6 +53,10 @@ Lemma tie_reads :
   gen_pop_attach_node = "nll_attach"%string /\ gen_pop_regul_node = "nll_regul_VAR"%string /\
   gen_ind_attach_node = "nll_attach_ind"%string /\ gen_ind_regul_node = "nll_regul_VAR_ind"%string.
 Proof. repeat split; reflexivity. Qed.
+
+(** the node the mixture responsibilities are computed from *)
+Lemma tie_resp_node : gen_ind_resp_node = "nll_regul_ind_sum_ind"%string.
+Proof. reflexivity. Qed.
 
 (** the blocks the three population samplers loop over (traced on shapes (2,2) and (3,)) *)
 Lemma tie_blocks :
